@@ -429,13 +429,27 @@ def handle_lost_shard(prop, tier, seed, s, flavor, st, merged, inconclusive, run
             tail = "".join(f.readlines()[-15:])
     except OSError:
         pass
-    if flavor in ("asan", "miri") and s.status == "crash" and re.search(r"AddressSanitizer|Undefined Behavior|error: .*(leak|UB)", tail):
+    if flavor in ("asan", "miri") and s.status == "crash":
         # a sanitizer report is itself the observation
-        case = {"mode": "regen", "tier": tier, "seed": seed, "shard": s.idx, "nshards": int(st.get("shards", 16)),
-                "case_no": case_no or 0, "flavor": flavor}
-        first = next((l for l in tail.splitlines() if re.search(r"ERROR: AddressSanitizer|Undefined Behavior|error:", l)), "sanitizer report")
-        merged["violations"].append({"sig": "%s:sanitizer-%s" % (prop, flavor), "detail": first + "\n" + tail[-1500:], "case": case, "flavor": flavor})
-        return
+        try:
+            with open(s.logf, errors="replace") as f:
+                full = f.read(2_000_000)
+        except OSError:
+            full = ""
+        mm = re.search(r"^.*(ERROR: AddressSanitizer|ERROR: LeakSanitizer|error: Undefined Behavior|error: memory leaked|error: unsupported operation|error: .*data race).*$", full, re.M)
+        if mm and "unsupported operation" not in mm.group(0):
+            lines = full[mm.start():].splitlines()
+            keep = [l for l in lines if not l.startswith("warning")][:40]
+            case = {"mode": "regen", "tier": tier, "seed": seed, "shard": s.idx, "nshards": int(st.get("shards", 16)),
+                    "case_no": case_no or 0, "flavor": flavor}
+            kind = "asan" if "Sanitizer" in mm.group(0) else "miri"
+            what = re.sub(r"==\d+==", "", mm.group(0)).strip()
+            what = re.sub(r" on address.*| at pc.*", "", what)
+            merged["violations"].append({"sig": "%s:sanitizer-%s" % (prop, kind), "detail": what + "\n" + "\n".join(keep), "case": case, "flavor": flavor})
+            return
+        if mm:
+            inconclusive.append("miri shard %d met an operation Miri does not support: %s" % (s.idx, mm.group(0)[:200]))
+            return
     if case_no is None or flavor == "miri":
         inconclusive.append("shard %s/%d %s (rc=%s) without an announced case; log tail: %s" % (flavor, s.idx, s.status, s.rc, tail[-300:].replace("\n", " | ")))
         return
